@@ -26,6 +26,10 @@ CLAIMED = {
          "Exploration. Generated headers span every header parameter range and every v2-4 / v5 table layout; generated well-formed multi-sequence programs over the full opcode set are compared row by row on every accessor with the state machine, the directory/file tables with their version-dependent index bases are compared entry by entry, sequences() bounds and resume_from (reverse then forward order) must reproduce the straight run. For sampled headers all 256 opcode bytes are swept; for arbitrary bytes the monotonicity / address-size clauses are checked. Both build profiles.",
          "Trusts the state machine, decoder and header assembler in harness/src/linemodel.rs (DESIGN appendix A.3). Comparison stops where behaviour is gimli policy rather than DWARF semantics (tombstoned set_address, advances beyond 2^64).",
          "DESIGN.md §4 C04, appendix A.3"),
+ 'C13': ("exhaustive grid of (line advance x operation advance) per LineEncoding + proptest random programs; round trip write->read with the generated rows as oracle, read back both by gimli's reader and by the harness's independent line-number state machine",
+         "Exploration. For 26 LineEncoding tuples every (line advance, operation advance) pair in the stated ranges is written and read back (complete in the thorough tier, strided in the quick tier); generated multi-sequence programs vary every row field, sequence start mode, string form, optional file field and header version/format/address size. The emitted program is decoded twice: by gimli's reader and by the harness's own decoder/state machine, both must reproduce the generated rows; file entries must resolve through the emitted string sections. Both build profiles.",
+         "Documented writer preconditions are respected by construction; line numbers < 2^63; mid-sequence set_address only re-states the current address. Trusts harness/src/linemodel.rs for the independent read-back.",
+         "DESIGN.md §4 C13"),
 }
 NOT_YET = "check not built yet in this session (machinery is being extended property by property; see DESIGN.md §4)"
 
